@@ -193,7 +193,9 @@ def main():
     out = {'fp': fps, 'events': cap.steps, 'stats': canon(stats), 'final_time': int(rp.s.sim_time), 'hashseed': os.environ.get('PYTHONHASHSEED'),
            'start_time': int(cfg.sim.start_time), 'end_time': int(cfg.sim.end_time), 'delta': int(cfg.sim.timestep_duration_seconds)}
     out['final'] = {'vehicles': {k: [v.distance_traveled_km, {str(e): x for e, x in v.energy_gained.items()}] for k, v in rp.s.vehicles.items()},
-                    'requests_count': None, 'cancelled_count': None}
+                    'requests_count': None, 'cancelled_count': None,
+                    'balances': {'vehicles': {k: float(v.balance) for k, v in rp.s.vehicles.items()}, 'stations': {k: float(x.balance) for k, x in rp.s.stations.items()}},
+                    'dispensed': {k: {str(e): float(q) for e, q in x.energy_dispensed.items()} for k, x in rp.s.stations.items()}}
     for h in rp.e.reporter.handlers:
         if isinstance(h, StatsHandler):
             out['final']['requests_count'] = h.stats.requests
